@@ -12,8 +12,9 @@
    signature-name regular expression, the signature-type switch, the file names
    and the IndexURL format are the ones goextract read from the source on this
    run (Generated.Regexes, Generated.IndexConsts). *)
-From Apko Require Import Base.Prelude Base.Regex Generated.Regexes Generated.IndexConsts
-  Model.Index Spec.IndexSpec Proofs.IndexProofs Model.IndexCache Proofs.IndexCacheProofs.
+From Apko Require Import Base.Prelude Base.Regex Generated.Regexes Generated.IndexConsts Generated.IndexShapes
+  Model.Index Spec.IndexSpec Proofs.IndexProofs Model.IndexCache Proofs.IndexCacheProofs
+  Model.IndexBytes Spec.IndexBytesSpec Proofs.IndexBytesProofs Model.IndexVctx Proofs.IndexVctxProofs.
 Open Scope string_scope. Open Scope list_scope.
 
 (* With checking on, an accepted archive carries, in its first member, an entry
@@ -36,12 +37,42 @@ Print Assumptions c04_accept_sound.
    and this held only when it left nothing behind). *)
 Theorem c04_parsed_is_signed : forall B D raw hash verify parse_text keys a idx,
   parse_repository_index B D raw hash verify parse_text true keys a = POk idx ->
-  exists m1 rest, a = m1 :: rest /\ index_from_archive parse_text rest = POk idx.
+  exists m1 rest i0, a = m1 :: rest /\ index_from_archive parse_text rest = POk i0 /\
+    i_pkgs idx = i_pkgs i0 /\ i_desc idx = i_desc i0.
 Proof.
   intros B D raw hash verify pt keys a idx H.
-  destruct (accept_sound B D raw hash verify pt keys a idx H) as (m1 & rest & E & _ & I). eauto.
+  destruct (accept_sound B D raw hash verify pt keys a idx H) as (m1 & rest & E & _ & i0 & I). eauto.
 Qed.
 Print Assumptions c04_parsed_is_signed.
+
+(* ... its Signature field (`if index.Signature == nil { index.Signature =
+   verifiedSignature }`) is the signed part's own .SIGN. entry when it has one and
+   otherwise the body of an entry of the first member that verifies for a
+   configured key over the remaining bytes — never anything else *)
+Theorem c04_accepted_signature_field : forall B D raw hash verify parse_text keys a idx,
+  parse_repository_index B D raw hash verify parse_text true keys a = POk idx ->
+  exists m1 rest i0, a = m1 :: rest /\ index_from_archive parse_text rest = POk i0 /\
+    match i_sig i0 with
+    | Some sg => i_sig idx = Some sg
+    | None => exists e alg a' key, i_sig idx = Some (e_body e) /\ In e (m_entries m1) /\
+                e_name e = sig_entry_name alg key /\ supported alg = Some a' /\ In key keys /\
+                verify key a' (hash a' (raw rest)) (e_body e) = true
+    end.
+Proof. exact accept_signature_field. Qed.
+Print Assumptions c04_accepted_signature_field.
+
+(* the verification loop (`for _, sig := range sigs`, flag `verified`): the signature
+   that is used is the FIRST one, in the order of the entries, that verifies; every
+   one before it failed; the loop ends unverified exactly when none verifies *)
+Theorem c04_first_verifying_signature_wins : forall (ok : sigrec -> bool) sigs,
+  (forall s, verify_loop ok sigs = Some s ->
+     ok s = true /\ exists before after, sigs = before ++ s :: after /\ forallb (fun x => negb (ok x)) before = true) /\
+  (verify_loop ok sigs = None <-> existsb ok sigs = false).
+Proof.
+  intros ok sigs. split; [|apply verify_loop_none].
+  intros s H. destruct (verify_loop_some ok sigs s H) as (_ & A & B). split; [exact A | exact B].
+Qed.
+Print Assumptions c04_first_verifying_signature_wins.
 
 (* the model meets the readable statement the validator decides *)
 Theorem c04_holds : forall B D raw hash verify parse_text keys a idx,
@@ -165,13 +196,14 @@ Proof. eexists. split; vm_compute; reflexivity. Qed.
    model hands on exactly the signed list *)
 Example c04_whole_archive_parse_differs :
   let pend := Some {| mt_rename := None; mt_resize := Some 2%N |} in
-  exists i_whole i_signed,
+  exists i_whole i_signed i_got,
     index_from_archive ex_parse (ex_first pend TClean :: ex_rest) = POk i_whole /\
     index_from_archive ex_parse ex_rest = POk i_signed /\
     i_pkgs i_whole <> i_pkgs i_signed /\
     parse_repository_index (list member) (list member) (fun r => r) (fun _ r => r) ex_verify ex_parse
-      true [ex_key] (ex_first pend TClean :: ex_rest) = POk i_signed.
-Proof. eexists _, _. repeat split; try (vm_compute; reflexivity). vm_compute. discriminate. Qed.
+      true [ex_key] (ex_first pend TClean :: ex_rest) = POk i_got /\
+    i_pkgs i_got = i_pkgs i_signed /\ i_sig i_got = Some ex_sig.
+Proof. eexists _, _, _. repeat split; try (vm_compute; reflexivity). vm_compute. discriminate. Qed.
 
 (* C04-F2: an end-of-archive marker in the signature member used to end the
    walk before the signed bytes *)
@@ -240,3 +272,191 @@ Theorem c04_history_validator_decides : forall signer loc arch calls,
   history_tags signer loc arch calls = [] <-> HistoryHolds signer loc arch calls.
 Proof. exact history_validator_decides. Qed.
 Print Assumptions c04_history_validator_decides.
+
+(* ---- parseRepositoryIndex over the BYTES of the archive (Model/IndexBytes.v) ---------
+   The archive is a byte string b. The gzip reader of the signature pass, archive/tar,
+   the hashes, RSAVerifyDigest and IndexFromArchive are universally quantified: nothing
+   is assumed about them — in particular not where the gzip reader stops. The key map
+   carries key MATERIAL (name -> bytes).
+
+   Acceptance requires a verified entry: an entry of the signature stream named
+   .SIGN.<type>.<key> whose type the `switch signatureType` read from the source maps to
+   a digest (so RSA or RSA256 — an RSA512 or DSA entry, an entry for an unknown key, an
+   entry that does not verify never counts), whose key name is configured, and whose body
+   verifies UNDER THE BYTES STORED FOR THAT NAME over the digest, of that type, of
+   b[readBytes:] — and the index handed on is IndexFromArchive of those very bytes. *)
+Theorem c04_accept_requires_verified_entry :
+  forall D gz_first tar_entries hash verify index_of_bytes keys b idx,
+  parse_repository_index_bytes D gz_first tar_entries hash verify index_of_bytes true keys b = POk idx ->
+  exists tarb n es e t kname kb a i0,
+    gz_first b = Some (tarb, n) /\ tar_entries tarb = Some es /\ In e es /\
+    e_name e = sig_entry_name t kname /\ sig_kind_of t = KAlg a /\ supported t = Some a /\
+    In (kname, kb) keys /\
+    verify kb a (hash a (skipn n b)) (e_body e) = true /\
+    index_of_bytes (skipn n b) = Some i0 /\
+    i_pkgs idx = i_pkgs i0 /\ i_desc idx = i_desc i0 /\
+    i_sig idx = match i_sig i0 with Some sg => Some sg | None => Some (e_body e) end.
+Proof. exact accept_requires_verified_entry. Qed.
+Print Assumptions c04_accept_requires_verified_entry.
+
+(* THE MUTANT ORACLE. Let Signed be the byte strings the holders of the configured keys
+   signed, and assume the signature oracle is sound for them (what verifies under a
+   configured key's bytes over the digest of x was signed: x is in Signed —
+   unforgeability and collision resistance, idealised; a hypothesis of the theorem, named
+   in the trusted base). Then for EVERY byte string b — every bit flip, byte change,
+   truncation, deletion, insertion, splice, cross-over, appended member or hand-made tar
+   block applied to a signed archive — the verdict is "rejected", or "accepted" with the
+   package list IndexFromArchive reads from a suffix of b that is a signed byte string. *)
+Theorem c04_mutant_oracle :
+  forall D gz_first tar_entries hash verify index_of_bytes (Signed : list N -> Prop) keys,
+  (forall kname kb a x sg, In (kname, kb) keys -> verify kb a (hash a x) sg = true -> Signed x) ->
+  forall b,
+  MutantHolds Signed (pkgs_of_bytes index_of_bytes) b
+    (verdict_of (parse_repository_index_bytes D gz_first tar_entries hash verify index_of_bytes true keys b)).
+Proof. exact mutant_oracle. Qed.
+Print Assumptions c04_mutant_oracle.
+
+(* a change that reaches the signed bytes (no suffix of the mutant is a signed byte
+   string) is rejected *)
+Theorem c04_mutant_not_signed_rejected :
+  forall D gz_first tar_entries hash verify index_of_bytes (Signed : list N -> Prop) keys,
+  (forall kname kb a x sg, In (kname, kb) keys -> verify kb a (hash a x) sg = true -> Signed x) ->
+  forall b, (forall n, ~ Signed (skipn n b)) ->
+  parse_repository_index_bytes D gz_first tar_entries hash verify index_of_bytes true keys b = PErr.
+Proof. exact mutant_not_signed_rejected. Qed.
+Print Assumptions c04_mutant_not_signed_rejected.
+
+(* a change outside the signed bytes does not reach what is parsed: when x0 is the only
+   byte string ever signed, whatever is done to the archive the verdict is "rejected" or
+   "accepted with the package list of x0", the mutant then ending with x0 *)
+Theorem c04_mutant_accepted_is_original :
+  forall D gz_first tar_entries hash verify index_of_bytes keys x0 b,
+  (forall kname kb a x sg, In (kname, kb) keys -> verify kb a (hash a x) sg = true -> x = x0) ->
+  verdict_of (parse_repository_index_bytes D gz_first tar_entries hash verify index_of_bytes true keys b) = None \/
+  (verdict_of (parse_repository_index_bytes D gz_first tar_entries hash verify index_of_bytes true keys b)
+     = pkgs_of_bytes index_of_bytes x0 /\ exists n, skipn n b = x0).
+Proof. exact mutant_accepted_is_original. Qed.
+Print Assumptions c04_mutant_accepted_is_original.
+
+(* the validator the sweep stage feeds with the real code's verdict on every mutant
+   decides that statement: an empty tag list means the oracle holds for every byte string
+   that ends with the rendered suffix, whatever precedes it *)
+Theorem c04_mutant_validator_sound : forall signed suffix ending verdict,
+  mutant_tags signed suffix ending verdict = [] ->
+  forall pre, MutantHolds (SignedIn signed) (fun x => assoc_bytes x signed) (pre ++ suffix) verdict.
+Proof. exact mutant_tags_sound. Qed.
+Print Assumptions c04_mutant_validator_sound.
+
+Theorem c04_mutant_validator_decides : forall signed suffix ending verdict,
+  mutant_tags signed suffix ending verdict = [] <-> SuffixHolds signed suffix verdict.
+Proof. exact mutant_tags_iff. Qed.
+Print Assumptions c04_mutant_validator_decides.
+
+(* the byte-level model and the member-structure model agree whenever the readers decode
+   the byte string the way the structure pictures it (first gzip stream = first member,
+   the gzip reader stops at its end, the rest are the raw bytes of the other members) *)
+Theorem c04_bytes_model_refines_structure :
+  forall D gz_first tar_entries hash verify index_of_bytes parse_text enc1 tarb1 raw keys m1 rest,
+  gz_first (enc1 m1 ++ raw rest) = Some (tarb1 m1, List.length (enc1 m1)) ->
+  tar_entries (tarb1 m1) = Some (m_entries m1) ->
+  pres_of_option (index_of_bytes (raw rest)) = index_from_archive parse_text rest ->
+  parse_repository_index_bytes D gz_first tar_entries hash verify index_of_bytes true keys (enc1 m1 ++ raw rest) =
+  parse_repository_index (list N) D raw hash (fun name => verify (key_bytes keys name)) parse_text true (key_names keys) (m1 :: rest).
+Proof. exact bytes_model_refines_structure. Qed.
+Print Assumptions c04_bytes_model_refines_structure.
+
+(* what the source says, on this run, about the statements the two models transcribe:
+   the test after the signature loop, the flag of the verification loop and the only
+   place it is set (under RSAVerifyDigest(...) == nil, then break), the four arguments of
+   RSAVerifyDigest, and that the bytes that are hashed are the bytes that are parsed,
+   b[len(b)-buf.Len():] for the reader buf the gzip reader consumes *)
+Theorem c04_accept_guards_shape :
+  no_sig_guard = "len($sigs)==0" /\ verified_init = "false" /\ verified_guard = "!$verified" /\
+  verified_set_when = "sign.RSAVerifyDigest($digest[$sig.DigestAlgorithm],$sig.DigestAlgorithm,$sig.Signature,$keys[$sig.KeyID])==nil" /\
+  verified_then = "break" /\
+  verify_call = ["$digest[$sig.DigestAlgorithm]"; "$sig.DigestAlgorithm"; "$sig.Signature"; "$keys[$sig.KeyID]"].
+Proof. repeat split; reflexivity. Qed.
+Print Assumptions c04_accept_guards_shape.
+
+Theorem c04_hashed_is_parsed_shape :
+  digest_over = parsed_checked /\ digest_over = "$b[len($b)-bytes.NewReader($b).Len():]" /\
+  gzip_reads_from = "bytes.NewReader($b)" /\ parsed_unchecked = "$b" /\
+  signature_fill = "if $index.Signature==nil $index.Signature=$verifiedSignature".
+Proof. repeat split; reflexivity. Qed.
+Print Assumptions c04_hashed_is_parsed_shape.
+
+(* the exemption test of shouldCheckSignatureForIndex as read from the source (a range
+   loop or slices.ContainsFunc over opts.noSignatureIndexes): the exact comparison of
+   IndexURL(elem, arch) with the index URL — c04_optout_exact above is about the model
+   that interprets this text *)
+Theorem c04_exempt_match_exact :
+  exempt_match = "IndexURL($elem,$arch)==$index" /\
+  should_check_shape = ["if $opts.ignoreSignatures return false";
+                        "if exists $elem in $opts.noSignatureIndexes: IndexURL($elem,$arch)==$index return false";
+                        "return true"] /\
+  forall elem arch index, exempt_test elem arch index = String.eqb (elem ++ "/" ++ arch ++ "/APKINDEX.tar.gz")%string index.
+Proof.
+  split; [reflexivity|]. split; [reflexivity|]. intros. rewrite exempt_test_spec, index_url_spec. reflexivity.
+Qed.
+Print Assumptions c04_exempt_match_exact.
+
+(* ---- verificationContext: the part of the index-cache key that names the context ------
+   Model/IndexVctx.v interprets what goextract read from the source (guard, literals,
+   sorted names, what is written into the hash per key). Under a collision-free hash the
+   context string determines whether verification applies and, when it does, the SET OF
+   (key name, key bytes) PAIRS — a context that left out the key bytes (seeded change
+   C04-4) changes vctx_writes and breaks this proof. *)
+Theorem c04_vctx_injective : forall (H : string -> string),
+  (forall x y, H x = H y -> x = y) ->
+  forall c1 k1 c2 k2,
+  verification_context H c1 k1 = verification_context H c2 k2 ->
+  c1 = c2 /\ (c1 = true -> forall p, In p k1 <-> In p k2).
+Proof. exact verification_context_injective. Qed.
+Print Assumptions c04_vctx_injective.
+
+Theorem c04_vctx_shape :
+  vctx_guard = "!shouldCheckSignatureForIndex($u,$arch,$opts)" /\ vctx_sorted = true /\
+  vctx_domain = "names of $keys" /\ vctx_hash = "sha256.New" /\ vctx_encoding = "hex.EncodeToString($h.Sum(nil))" /\
+  forall n k, vctx_entry n k = (field n ++ field k)%string.
+Proof. repeat split; try reflexivity. exact vctx_entry_spec. Qed.
+Print Assumptions c04_vctx_shape.
+
+(* ... and with that string as the cache key (key identifiers naming (file name, bytes)
+   pairs injectively) every history of calls is answered as without a cache and every
+   index a call gets back was authorised by that call *)
+Theorem c04_cache_real_context_sound : forall (H : string -> string),
+  (forall x y, H x = H y -> x = y) ->
+  forall signer loc arch (material : string -> string * string),
+  (forall a b, material a = material b -> a = b) ->
+  forall cached cs,
+  let out := run_history signer loc arch cached string String.eqb (ctx_real H loc arch material) [] cs in
+  out = map (fresh_call signer loc arch) cs /\ HistoryHolds signer loc arch out.
+Proof. exact cache_real_context_sound. Qed.
+Print Assumptions c04_cache_real_context_sound.
+
+(* ---- non-vacuity of the new hypotheses ------------------------------------------------- *)
+(* a signature oracle that is sound for Signed = {x0}, and an archive it accepts *)
+Definition ex_x0 : list N := [7; 7; 7]%N.
+Definition ex_b : list N := [1; 2]%N ++ ex_x0.
+Definition ex_gz (b : list N) : option (list N * nat) := Some ([9]%N, 2%nat).
+Definition ex_tar (_ : list N) : option (list entry) := Some [ {| e_name := ".SIGN.RSA256.k.rsa.pub"; e_body := ex_sig |} ].
+Definition ex_vb (kb : list N) (a : halg) (d : list N) (sg : list N) : bool :=
+  list_eqb N.eqb kb [42]%N && halg_eqb a SHA256 && list_eqb N.eqb d ex_x0 && list_eqb N.eqb sg ex_sig.
+Definition ex_iob (x : list N) : option index :=
+  if list_eqb N.eqb x ex_x0 then Some {| i_pkgs := ["a=1"]; i_desc := []; i_sig := None |} else None.
+Example c04_mutant_oracle_hypothesis_satisfiable :
+  (forall kname kb a x sg, In (kname, kb) [(ex_key, [42]%N)] -> ex_vb kb a ((fun _ y => y) a x) sg = true -> x = ex_x0) /\
+  verdict_of (parse_repository_index_bytes (list N) ex_gz ex_tar (fun _ y => y) ex_vb ex_iob true [(ex_key, [42]%N)] ex_b) = Some ["a=1"] /\
+  parse_repository_index_bytes (list N) ex_gz ex_tar (fun _ y => y) ex_vb ex_iob true [(ex_key, [42]%N)] ([1; 2; 7; 7; 8]%N) = PErr.
+Proof.
+  split; [|split; vm_compute; reflexivity].
+  intros kname kb a x sg _ H. unfold ex_vb in H. repeat (apply andb_true_iff in H; destruct H as [H ?]).
+  apply list_N_eqb_spec. assumption.
+Qed.
+
+(* the identity is a collision-free hash; two contexts that differ in key bytes only *)
+Example c04_vctx_example :
+  verification_context (fun x => x) true [("k.rsa.pub", "A")] <> verification_context (fun x => x) true [("k.rsa.pub", "B")] /\
+  verification_context (fun x => x) true [("b", "y"); ("a", "x")] = verification_context (fun x => x) true [("a", "x"); ("b", "y")] /\
+  verification_context (fun x => x) false [("a", "x")] = "unverified".
+Proof. split; [vm_compute; discriminate | split; vm_compute; reflexivity]. Qed.
